@@ -588,11 +588,11 @@ def obligations(tier):
                            "other scalars": sorted(ATOMS), "keys": "plain, symbolic string, or non-string (1, True, None)"},
                    stubs=["mappings with symbolic keys are insertion-ordered dict subclasses that do not hash their keys"],
                    outside=["UTF-8 encoding and SHA-256 (assumed injective / collision resistant)", "GPG", "ruamel YAML loading", "the Python < 3.12 branch str(play)"],
-                   encoded=enc[:5], budget_s=1200 if thorough else 150, replay="collision", check_sample=True),
+                   encoded=enc[:5], budget_s=900 if thorough else 150, replay="collision", check_sample=True),
         Obligation("O1-injective-long", make_o1(1, 3 if thorough else 2, 2 if thorough else 1), ["injective"],
                    desc="same with longer strings in a scalar / one-entry container%s" % (" / two-entry container" if thorough else ""),
                    bounds={"depth": 1, "entries": "<= %d" % (2 if thorough else 1), "strings": "<= %d symbolic chars of %r" % (3 if thorough else 2, ALPHA)},
-                   encoded=enc[:5], budget_s=1200 if thorough else 150, replay="collision", check_sample=True),
+                   encoded=enc[:5], budget_s=900 if thorough else 150, replay="collision", check_sample=True),
         Obligation("O1-injective-scalar", make_o1(0, 4 if thorough else 3, 0), ["injective"],
                    desc="a single string of <= %d symbolic chars" % (4 if thorough else 3),
                    bounds={"strings": "<= %d symbolic chars of %r" % (4 if thorough else 3, ALPHA)}, encoded=enc[:3], budget_s=600 if thorough else 100,
